@@ -341,15 +341,23 @@ def check(ctx):
         ctx.ob("R4", f"{BI}:XonshSession", f"{h} is bound on the session object", re.search(rf"self\.{h}\s*=\s*{h}\b", binds) is not None, key=f"{h}|unbound")
     # grammar: token -> helper
     dr = bp.func("BaseParser._dollar_rules")
+    # by path enumeration: the path on which `<tok> == "$["` holds builds which helper call (if/elif order, arm order
+    # and != tests do not matter)
     found = {}
-    for n in ast.walk(dr):
-        if isinstance(n, ast.If):
-            t = n.test
-            if isinstance(t, ast.Compare) and isinstance(t.ops[0], ast.Eq) and isinstance(const_value(t.comparators[0]), str):
-                tok = const_value(t.comparators[0])
-                for c in calls_in(ast.Module(body=n.body, type_ignores=[]), local=False):
-                    if call_name(c) == "xonsh_call" and c.args and isinstance(const_value(c.args[0]), str):
-                        found[tok] = const_value(c.args[0]).replace("__xonsh__.", "")
+    for pth in dtable.simplified(dtable.paths(dr, stores=True, loops="skip")):
+        toks = []
+        for e, pol in pth.conds:
+            alts = dtable.branches(e, pol)
+            for e2, p2 in alts[0] if len(alts) == 1 else [dtable.normalise(e, pol)]:
+                if p2 and isinstance(e2, ast.Compare) and isinstance(e2.ops[0], ast.Eq) and isinstance(const_value(e2.comparators[0]), str):
+                    toks.append(const_value(e2.comparators[0]))
+        if len(toks) != 1:
+            continue
+        exprs = [v for k_, v in pth.env.items() if isinstance(v, ast.AST) and not k_.startswith("<")] + [e.value if isinstance(e, ast.Assign) else e for e in pth.effects if isinstance(e, ast.AST)]
+        for x in exprs:
+            for c in ast.walk(x):
+                if isinstance(c, ast.Call) and call_name(c) == "xonsh_call" and c.args and isinstance(const_value(c.args[0]), str):
+                    found[toks[0]] = const_value(c.args[0]).replace("__xonsh__.", "")
     for tok, h in TOKEN_HELPER.items():
         ctx.ob("R4", f"{BP}:BaseParser._dollar_rules", f"token {tok!r} builds a call to {h}", found.get(tok) == h, key=f"token|{tok}", detail=str(found.get(tok)))
     for q, h in (("BaseParser.p_subproc_atom_uncaptured", "subproc_uncaptured"), ("BaseParser.p_subproc_atom_captured_stdout", "subproc_captured_stdout"), ("BaseParser.p_subproc_atom_subproc_inject", "subproc_captured_inject")):
